@@ -91,6 +91,7 @@ def run(ctx):
         "wrongly-typed = any argument whose dynamic type is not one of the eleven built-in integer types / string, []byte / bool for the verb (named types are not generated)",
         "allocation-freeness is testing.AllocsPerRun(3, Fprintf(pre-sized writer, format, pre-built args...)) = 0, measured by the harness and required by the monitor; it is also measured for 12 dedicated non-inlined call sites whose arguments live in the caller's stack frame ([]byte of local arrays of 1..200 bytes, strings built from local arrays, local integers), where escape analysis of Fprintf/doWrite decides",
         "non-termination is decided by CPU time (3 s for one case; the slowest legitimate case needs about 30 ms) of a child process and logged as an event with hang = true, which the monitor rejects",
+        "input domain (audited against the quantifier): TLC widths are boundary representatives, leg T draws 0..10^6; strings to 3 kB plus 0.3-1 MB ones and nil []byte; all 256 byte values and kB-long formats in leg T; widths of up to 25 digits only with argument lists that hold no string/[]byte; named types, %<width>% and multi-megabyte inputs are not covered",
         "trusted Go: the case decoder/encoder (value <-> {ty, neg, 16-bit limbs}, run-length encoding) in harness/kfmt/c15_fmt_test.go",
     ]
     d = ctx.spec_dir("kfmt")
